@@ -136,7 +136,7 @@ theorem buildKwargs_pres {conv conv' : Str → Option (Val → R Val)} (h : Pres
       obtain ⟨k, v⟩ := p
       simp only [buildKwargs] at hne ⊢
       cases hh : hashable k with
-      | false => simp [hh]
+      | false => simp
       | true =>
         simp only [hh, Bool.not_true, Bool.false_eq_true, if_false] at hne ⊢
         cases k with
@@ -202,6 +202,94 @@ theorem bind_pres {α : Type} (a : R α) {f g : α → R Val} (h : Pres f g) :
   | error e => intro _; rfl
   | ok y => exact h y
 
+
+/-! ### One-step unfolding equations (`simp only [um]` would unfold under binders as well) -/
+
+theorem um_zero (env : Env) (L : Leaves) (t : Ty) (v : Val) : um env L 0 t v = .error .fuel := rfl
+theorem mar_zero (env : Env) (L : Leaves) (t : Ty) (v : Val) : mar env L 0 t v = .error .fuel := rfl
+
+theorem um_coll (env : Env) (L : Leaves) (n : Nat) (k : Coll) (e : Ty) (v : Val) :
+    um env L (n + 1) (.coll k e) v =
+      match (load env L v).bind (itervalues env) with
+      | .error er => .error er
+      | .ok xs =>
+        match mapR (um env L n e) xs with
+        | .error er => .error er
+        | .ok ys => .ok (mkColl k ys) := rfl
+
+theorem um_tuple (env : Env) (L : Leaves) (n : Nat) (es : List Ty) (v : Val) :
+    um env L (n + 1) (.tuple es) v =
+      match (load env L v).bind (itervalues env) with
+      | .error er => .error er
+      | .ok xs =>
+        match zipR (es.map (um env L n)) xs with
+        | .error er => .error er
+        | .ok ys => if ys.length == es.length then .ok (.tuple ys) else .error .value := rfl
+
+theorem um_dict (env : Env) (L : Leaves) (n : Nat) (k e : Ty) (v : Val) :
+    um env L (n + 1) (.dict k e) v =
+      match (load env L v).bind (iteritems env) with
+      | .error er => .error er
+      | .ok items =>
+        match mapR (convPair (um env L n k) (um env L n e)) items with
+        | .error er => .error er
+        | .ok kvs => .ok (.dict kvs) := rfl
+
+theorem um_union (env : Env) (L : Leaves) (n : Nat) (ms : List Ty) (v : Val) :
+    um env L (n + 1) (.union ms) v = firstOk ((unionOrder ms).map (um env L n)) v := rfl
+
+theorem um_cls (env : Env) (L : Leaves) (n : Nat) (c : Nat) (v : Val) :
+    um env L (n + 1) (.cls c) v =
+      (load env L v).bind (umStruct env c (convOf (fieldsOf env c) (um env L n))) := rfl
+
+theorem um_wrap_succ (env : Env) (L : Leaves) (n : Nat) (w : Wrapper) (t : Ty) (v : Val) :
+    um env L (n + 1) (.wrap w t) v = um env L n t v := rfl
+
+theorem mar_coll (env : Env) (L : Leaves) (n : Nat) (k : Coll) (e : Ty) (v : Val) :
+    mar env L (n + 1) (.coll k e) v =
+      match itervalues env v with
+      | .error er => .error er
+      | .ok xs =>
+        match mapR (mar env L n e) xs with
+        | .error er => .error er
+        | .ok ys => .ok (.list ys) := rfl
+
+theorem mar_tuple (env : Env) (L : Leaves) (n : Nat) (es : List Ty) (v : Val) :
+    mar env L (n + 1) (.tuple es) v =
+      match itervalues env v with
+      | .error er => .error er
+      | .ok xs =>
+        match zipR (es.map (mar env L n)) xs with
+        | .error er => .error er
+        | .ok ys => .ok (.list ys) := rfl
+
+theorem mar_dict (env : Env) (L : Leaves) (n : Nat) (k e : Ty) (v : Val) :
+    mar env L (n + 1) (.dict k e) v =
+      match iteritems env v with
+      | .error er => .error er
+      | .ok items =>
+        match mapR (convPair (mar env L n k) (mar env L n e)) items with
+        | .error er => .error er
+        | .ok kvs => .ok (.dict kvs) := rfl
+
+theorem mar_union (env : Env) (L : Leaves) (n : Nat) (ms : List Ty) (v : Val) :
+    mar env L (n + 1) (.union ms) v = marUnion ms (mar env L n) v := rfl
+
+theorem mar_cls (env : Env) (L : Leaves) (n : Nat) (c : Nat) (v : Val) :
+    mar env L (n + 1) (.cls c) v =
+      match env.cls c with
+      | none => .error .unsupported
+      | some ci =>
+        match iteritems env v with
+        | .error er => .error er
+        | .ok items =>
+          match buildKwargs (convOf ci.fields (mar env L n)) items [] with
+          | .error er => .error er
+          | .ok kw => .ok (.dict (kw.map fun p => (.str p.1, p.2))) := rfl
+
+theorem mar_wrap_succ (env : Env) (L : Leaves) (n : Nat) (w : Wrapper) (t : Ty) (v : Val) :
+    mar env L (n + 1) (.wrap w t) v = mar env L n t v := rfl
+
 /-- **Fuel stability, one step** for `unmarshal`. -/
 theorem um_pres_succ (env : Env) (L : Leaves) : ∀ n t, Pres (um env L n t) (um env L (n + 1) t) := by
   intro n
@@ -216,7 +304,7 @@ theorem um_pres_succ (env : Env) (L : Leaves) : ∀ n t, Pres (um env L n t) (um
     | literal vs => rfl
     | enum c => rfl
     | coll k e =>
-      simp only [um] at hne ⊢
+      simp only [um_coll] at hne ⊢
       cases h1 : (load env L x).bind (itervalues env) with
       | error er => rfl
       | ok xs =>
@@ -225,7 +313,7 @@ theorem um_pres_succ (env : Env) (L : Leaves) : ∀ n t, Pres (um env L n t) (um
           intro hc; rw [hc] at hne; exact hne rfl
         rw [mapR_pres (ih e) xs hm]
     | tuple es =>
-      simp only [um] at hne ⊢
+      simp only [um_tuple] at hne ⊢
       cases h1 : (load env L x).bind (itervalues env) with
       | error er => rfl
       | ok xs =>
@@ -234,7 +322,7 @@ theorem um_pres_succ (env : Env) (L : Leaves) : ∀ n t, Pres (um env L n t) (um
           intro hc; rw [hc] at hne; exact hne rfl
         rw [zipR_pres _ _ es (fun t _ => ih t) xs hm]
     | dict k e =>
-      simp only [um] at hne ⊢
+      simp only [um_dict] at hne ⊢
       cases h1 : (load env L x).bind (iteritems env) with
       | error er => rfl
       | ok items =>
@@ -243,13 +331,13 @@ theorem um_pres_succ (env : Env) (L : Leaves) : ∀ n t, Pres (um env L n t) (um
           intro hc; rw [hc] at hne; exact hne rfl
         rw [mapR_pres (convPair_pres (ih k) (ih e)) items hm]
     | union ms =>
-      simp only [um] at hne ⊢
+      simp only [um_union] at hne ⊢
       exact firstOk_pres _ _ _ (fun t _ => ih t) x hne
     | cls c =>
-      simp only [um] at hne ⊢
+      simp only [um_cls] at hne ⊢
       exact bind_pres _ (umStruct_pres env c (convOf_pres _ _ _ (fun p _ => ih p.2))) hne
     | wrap w t' =>
-      simp only [um] at hne ⊢
+      simp only [um_wrap_succ] at hne ⊢
       exact ih t' x hne
 
 /-- **Fuel stability, one step** for `marshal`. -/
@@ -266,7 +354,7 @@ theorem mar_pres_succ (env : Env) (L : Leaves) : ∀ n t, Pres (mar env L n t) (
     | literal vs => rfl
     | enum c => rfl
     | coll k e =>
-      simp only [mar] at hne ⊢
+      simp only [mar_coll] at hne ⊢
       cases h1 : itervalues env x with
       | error er => rfl
       | ok xs =>
@@ -275,7 +363,7 @@ theorem mar_pres_succ (env : Env) (L : Leaves) : ∀ n t, Pres (mar env L n t) (
           intro hc; rw [hc] at hne; exact hne rfl
         rw [mapR_pres (ih e) xs hm]
     | tuple es =>
-      simp only [mar] at hne ⊢
+      simp only [mar_tuple] at hne ⊢
       cases h1 : itervalues env x with
       | error er => rfl
       | ok xs =>
@@ -284,7 +372,7 @@ theorem mar_pres_succ (env : Env) (L : Leaves) : ∀ n t, Pres (mar env L n t) (
           intro hc; rw [hc] at hne; exact hne rfl
         rw [zipR_pres _ _ es (fun t _ => ih t) xs hm]
     | dict k e =>
-      simp only [mar] at hne ⊢
+      simp only [mar_dict] at hne ⊢
       cases h1 : iteritems env x with
       | error er => rfl
       | ok items =>
@@ -293,10 +381,10 @@ theorem mar_pres_succ (env : Env) (L : Leaves) : ∀ n t, Pres (mar env L n t) (
           intro hc; rw [hc] at hne; exact hne rfl
         rw [mapR_pres (convPair_pres (ih k) (ih e)) items hm]
     | union ms =>
-      simp only [mar] at hne ⊢
+      simp only [mar_union] at hne ⊢
       exact marUnion_pres _ _ ms (fun t _ => ih t) x hne
     | cls c =>
-      simp only [mar] at hne ⊢
+      simp only [mar_cls] at hne ⊢
       cases hc : env.cls c with
       | none => rfl
       | some ci =>
@@ -309,7 +397,7 @@ theorem mar_pres_succ (env : Env) (L : Leaves) : ∀ n t, Pres (mar env L n t) (
             intro hcn; rw [hcn] at hne; exact hne rfl
           rw [buildKwargs_pres (convOf_pres _ _ _ (fun p _ => ih p.2)) items [] hm]
     | wrap w t' =>
-      simp only [mar] at hne ⊢
+      simp only [mar_wrap_succ] at hne ⊢
       exact ih t' x hne
 
 /-- **Fuel stability**: every outcome of `unmarshal` other than "out of fuel" is reproduced with one
